@@ -438,6 +438,7 @@ func c15history(env sched.Env) *sched.Report {
 				w, oracle, detail, pre := c15replay(path)
 				rep.Transitions++
 				rep.Execs++
+				sched.Progress(nil)
 				if oracle != "" {
 					sig := fmt.Sprintf("%s / %s / %s", oracle, op.Kind, pre)
 					rep.Outcomes["violation: "+sig]++
